@@ -296,9 +296,11 @@ class Ctx:
         condition) that share a variable with that set.  Definitions of atoms that do not occur
         are conservative extensions and are left out."""
         vs = set()
-        chosen = []
+        chosen = list(extra)  # the path condition is always part of the query
         todo = list(varset)
-        pool = [(f, f.varset(self)) for f in list(self.side) + list(extra)]
+        for f in extra:
+            todo.extend(f.varset(self))
+        pool = [(f, f.varset(self)) for f in list(self.side)]
         while True:
             while todo:
                 v = todo.pop()
@@ -977,6 +979,11 @@ class Sym:
         if self.is_const and o.is_const:
             a, b = self.k, o.k
             return {"<": a < b, "<=": a <= b, ">": a > b, ">=": a >= b, "==": a == b, "!=": a != b}[op]
+        ra, rb = _pure_root(self), _pure_root(o)
+        if ra is not None and rb is not None and ra[2] == rb[2]:
+            # two positive d-th roots compare like their radicands (x -> x^d is strictly increasing on x > 0)
+            d = ra[2]
+            return (ra[1] * ra[0] ** d)._cmp(rb[1] * rb[0] ** d, op)
         diff = self - o
         return SymBool(c, sign_formula(diff, op))
 
@@ -997,6 +1004,16 @@ class Sym:
 
     def __ne__(self, o):
         return self._cmp(o, "!=")
+
+
+def _pure_root(s):
+    """(k, radicand, degree) if s == k * root_atom with k > 0, else None"""
+    if s.L is not None or s.d or s.n is None or s.n.op != "v" or s.k <= 0:
+        return None
+    info = s.ctx.atom_defs.get(s.n.val)
+    if info is None or info[0] != "root":
+        return None
+    return (s.k, info[1], info[2])
 
 
 def ZERO(ctx):
@@ -1266,6 +1283,15 @@ def log_atom(x):
 
     def make():
         atom, node = c.new_atom("log", "log", x, None, positive=False)
+        # sign of the logarithm where the solver can place the argument relative to 1
+        d = x - 1
+        r1, _ = c.check(sign_formula(d, ">="), kind="log-sign", timeout=5000, use_pc=False)
+        if r1 == "unsat":
+            c.add_def(node.val, Rel("<", node))
+        else:
+            r2, _ = c.check(sign_formula(d, "<="), kind="log-sign", timeout=5000, use_pc=False)
+            if r2 == "unsat":
+                c.add_def(node.val, Rel(">", node))
         return atom
 
     return c.unify_atom("log", x, None, make)
